@@ -187,6 +187,7 @@ inductive Op where
   | setKey (k : Key) (v : T)              -- d[k] = v, l[i] = v (i < len), o.k = v
   | delKey (k : Key)                      -- del d[k]
   | append (v : T)
+  | extend (vs : List T)                  -- l.extend(vs) / l += vs: one batched notification
   | rebind (pairs : List (Path × T))      -- paths relative to the receiver
   | update (kvs : List (Key × T))         -- Dict.update: rebind with skip_notification=True
   | clear | reverse | popitem             -- mutators that notify nobody
@@ -255,11 +256,12 @@ def finish (root' : T) (ups : List (Update × Path)) (notify : Bool) : Out :=
   else { tree := root', ok := true, events := [] }
 
 inductive OpKind where
-  | setKey | delKey | append | rebind | update | clear | reverse | popitem
+  | setKey | delKey | append | extend | rebind | update | clear | reverse | popitem
   deriving DecidableEq, Repr
 
 def Op.kind : Op → OpKind
-  | .setKey _ _ => .setKey | .delKey _ => .delKey | .append _ => .append | .rebind _ => .rebind
+  | .setKey _ _ => .setKey | .delKey _ => .delKey | .append _ => .append | .extend _ => .extend
+  | .rebind _ => .rebind
   | .update _ => .update | .clear => .clear | .reverse => .reverse | .popitem => .popitem
 
 /-- A mutator that goes around the write primitive (`clear`, `reverse`, `popitem`): raw change of
@@ -285,6 +287,13 @@ def step (root : T) (recv : Path) (notifyOn : Bool) : Op → Out
       match writeReset root recv (Key.i items.length) (some v) with
       | some (r', some u) => finish r' [(u, recv)] notifyOn
       | _ => { tree := root, ok := false, events := [] }
+    | _ => { tree := root, ok := false, events := [] }
+  | .extend vs =>
+    match (getAt root recv) with
+    | some (.node _ .list items) =>
+      match writeAll root recv ((List.range vs.length).zip vs |>.map fun (i, v) => ([Key.i (items.length + i)], v)) [] with
+      | none => { tree := root, ok := false, events := [] }
+      | some (r', ups) => finish r' ups notifyOn
     | _ => { tree := root, ok := false, events := [] }
   | .rebind pairs =>
     -- List._sym_rebind applies the pairs in descending path order and reports the updates in
